@@ -23,9 +23,15 @@ def run_case(case):
         ref = None
         if case["fs"] == "vtrace":
             tracefs.JITTER[0] = 0.0004  # lets threads an implementation may use internally interleave on a shared handle
-        for rpc in case["rpcs"] + [r for r in case["rpcs"][1:4]]:
+        import numpy as np
+
+        # positive integers that are not builtin ints (a chunk size computed with NumPy): the same trees
+        typed = [(f"{t}({r})", getattr(np, t)(r)) for t, r in case.get("typed", [])]
+        for rpc in case["rpcs"] + [r for r in case["rpcs"][1:4]] + typed:
             opts = {"use_cache": False}
-            if rpc is not None:
+            if isinstance(rpc, tuple):
+                rpc, opts["records_per_chunk"] = rpc[0], rpc[1]
+            elif rpc is not None:
                 opts["records_per_chunk"] = rpc
             tracefs.take_log()
             try:
@@ -52,7 +58,7 @@ def run_case(case):
             for im in b.images:
                 node = fp[f"/imagery/{im['group']}"]["vars"]["data"]
                 enc = node.pop("encoding")
-                eff = 1024 if rpc is None else rpc
+                eff = 1024 if rpc is None else int(opts["records_per_chunk"])
                 want = {"rows": min(eff, im["n"]), "columns": im["p"]}
                 got = enc.get("preferred_chunksizes")
                 if got != want:
@@ -157,7 +163,8 @@ def body(chk):
         if chk.tier == "thorough":
             rpcs = sorted(set(rpcs) | set(range(1, n + 3)))
         for fs in (["vtrace", "local"] if chk.tier == "quick" else ["vtrace", "local", "file", "memory"]):
-            cases.append(dict(level=level, images=images, seed=chk.seed + si, fs=fs, rpcs=[None] + rpcs))
+            cases.append(dict(level=level, images=images, seed=chk.seed + si, fs=fs, rpcs=[None] + rpcs,
+                              typed=[(t, r) for t in ("int64", "int32", "uint16", "intp") for r in (1, 2, max(1, n - 1), n, n + 1, 1024)]))
     L.tables()
     want = [dict(L.SMALL_LEADER), dict(L.SMALL_LEADER, nmap=0), dict(file="trailer", nlow=0, lens=[])] + \
            [dict(file="volume", nfp=k) for k in (3, 4, 5)]
@@ -187,12 +194,14 @@ def body(chk):
         for i, rpc in enumerate(c["rpcs"]):
             for rpc2 in c["rpcs"][i + 1:]:
                 chk.count(1, f"{c['level']}:{shape}:{rpc}:{rpc2}")
+        for t, r in c.get("typed", []):
+            chk.count(1, f"{c['level']}:{shape}:{t}({r})")
         for rpc, msg in res["bad"]:
             chk.violation(f"rpc-dependence:{c['level']}:{shape}:rpc={rpc}", f"{c['fs']}: {msg}", {"case": c, "rpc": rpc})
         names = {im["name"] for im in res["images"]}
         for rpc, evs in res["events"].items():
             for im in res["images"]:
-                eff = 1024 if rpc == "None" else int(rpc)
+                eff = 1024 if rpc == "None" else int(rpc[rpc.index("(") + 1:-1]) if "(" in rpc else int(rpc)
                 tid = batch.start(iotrace.geom_of(im, min(eff, im["n"] + 1)), meta=None)
                 tinfo[tid] = (c, rpc, im["name"])
                 batch.mark(tid, e="begin_open")
